@@ -474,7 +474,7 @@ pub struct DroppedWithFullQueue;
 /// returns (number of unsubscribe requests naming the id, table sizes after the unsubscribe was acknowledged)
 pub async fn full_queue_scenario(case: &FullQueueCase, fails: &mut Vec<(String, String)>) -> (usize, Option<[usize; 4]>, bool) {
 	use jsonrpsee_core::client::ClientT;
-	let mut mc = MockClient::new(ClientCfg { id_kind: case.id_kind, sub_buffer: case.cap.max(1) as usize, max_concurrent_requests: 1 });
+	let mut mc = MockClient::new(ClientCfg { id_kind: case.id_kind, sub_buffer: case.cap.max(1) as usize, max_concurrent_requests: 1, ping: false });
 	let c = mc.client.clone();
 	let h = tokio::spawn(async move { c.subscribe::<Value, _>("sub", rpc_params![], "unsub").await });
 	settle().await;
